@@ -104,7 +104,8 @@ ObsOf(r, v, c) ==
      fset |-> v # <<>> /\ meta.fast /\ c.f >= meta.need]
 \* the part of an observation that the API shows: outputs, results, and per node Activation, ActivationsCount,
 \* GetActiveOut, GetActiveOutTd; the fast solver shows its outputs and results only
-ApiStd(sst) == [i \in DOMAIN sst |-> <<sst[i][1], sst[i][2], IF sst[i][2] > 1 THEN sst[i][3] ELSE 0>>]
+ApiStd(sst) == [i \in DOMAIN sst |-> LET s == [a |-> sst[i][1], c |-> sst[i][2], l1 |-> sst[i][3]]
+                                       IN  <<s.a, s.c, GetActiveOut(s), GetActiveOutTd(s)>>]
 ApiOf(ob) == [so |-> ob.so, sok |-> ob.sok, se |-> ob.se, nodes |-> ApiStd(ob.sst), fo |-> ob.fo, fok |-> ob.fok, fe |-> ob.fe]
 
 Init == /\ shape \in Shapes /\ inc = [n \in Neurons |-> <<>>] /\ ctrl = <<>> /\ ph = "build" /\ cap \in LinkCaps
@@ -148,7 +149,8 @@ MetaOf(nt, m, ms) ==
          depthdef |-> IF fa THEN MDepthDef(nt) ELSE 0 - 1,
          longest |-> IF fa THEN MLongest(nt) ELSE 0 - 1,
          ncs |-> MStdNodeCount(nt), ncf |-> MFastNodeCount(m, ms),
-         lcs |-> MStdLinkCount(nt), lcf |-> MFastLinkCount(m, ms), plainbias |-> PlainBias(nt)]
+         lcs |-> MStdLinkCount(nt), lcf |-> MFastLinkCount(m, ms), plainbias |-> PlainBias(nt),
+         relaxerr |-> MStdRelax(nt, MStdFresh(nt)).err]
 \* the topological value for every input vector of the scope
 WantsOf(nt, mt) == LET ls == SetToSeq(Loads) IN
                    [i \in DOMAIN ls |-> [v |-> ls[i].v, want |-> IF mt.defined THEN MTopoEval(nt, ls[i].v) ELSE <<>>]]
@@ -256,7 +258,6 @@ InScope == ph = "hist" => /\ Len(net.ctrl) \in 1..MaxMods
 \* value palettes referred to by the configurations (a .cfg file cannot hold negative numbers or sequences)
 W3 == {0 - 1, 1, 2}
 W2 == {0 - 1, 2}
-W1 == {2}
 VecsQ == {<<2, 0 - 1>>, <<0 - 1, 3>>}
 VecsT == {<<2, 0 - 1>>, <<0 - 1, 3>>, <<0, 1>>}
 VecsOne == {<<2, 0 - 1>>}
